@@ -516,3 +516,44 @@ func TestD10CliShortRecords(t *testing.T) {
 		t.Fatalf("expected default level 1 in the request, got %s", stdout.String())
 	}
 }
+
+// ---- D19 (C17): an unknown positive-only vector id must be reported ----
+func TestD19UnknownPositiveGtIsNotFound(t *testing.T) {
+	ctx := context.Background()
+	core, err := server.NewCore(ctx)
+	if err != nil {
+		t.Fatal(err)
+	}
+	ms := grpcserver.NewTrustMatrixServer(&core.StoredTrustMatrices)
+	vs := grpcserver.NewTrustVectorServer(&core.StoredTrustVectors)
+	cs := grpcserver.NewGrpcServer(core)
+	id := "m"
+	_, _ = ms.Create(ctx, &tmpb.CreateRequest{Id: id})
+	_, _ = ms.Update(ctx, &tmpb.UpdateRequest{Header: &tmpb.Header{Id: &id}, Entries: []*tmpb.Entry{{Truster: "0", Trustee: "1", Value: 1}, {Truster: "1", Trustee: "0", Value: 1}}})
+	_, _ = vs.Create(ctx, &tvpb.CreateRequest{Id: "g"})
+	_, err = cs.BasicCompute(ctx, &computepb.BasicComputeRequest{Params: &computepb.Params{LocalTrustId: "m", GlobalTrustId: "g", PositiveGlobalTrustId: "nope"}})
+	if status.Code(err) != codes.NotFound {
+		t.Fatalf("BasicCompute with an unknown positive-only vector id: %v, want NotFound", err)
+	}
+	s := &vstream{}
+	_ = vs.Get(&tvpb.GetRequest{Id: "g"}, s)
+	if len(s.parts) != 1 {
+		t.Fatalf("global trust was written although the request was refused: %v", s.parts)
+	}
+}
+
+// ---- D20 (C05/C15): NaN alpha / epsilon are out of range ----
+func TestD20NaNParametersRejected(t *testing.T) {
+	c := sparse.NewCSRMatrix(2, 2, []sparse.CooEntry{{Row: 0, Column: 1, Value: 1}, {Row: 1, Column: 0, Value: 1}}, false)
+	p := sparse.NewVector(2, nil)
+	basic.CanonicalizeTrustVector(p)
+	_ = basic.CanonicalizeLocalTrust(c, p)
+	for _, ae := range [][2]float64{{0.5, math.NaN()}, {math.NaN(), 1e-6}} {
+		ctx, cancel := context.WithTimeout(context.Background(), 2*time.Second)
+		_, err := basic.Compute(ctx, c, p, ae[0], ae[1])
+		cancel()
+		if err == nil || err == context.DeadlineExceeded {
+			t.Fatalf("Compute(alpha=%v, epsilon=%v): %v, want a parameter error before iterating", ae[0], ae[1], err)
+		}
+	}
+}
